@@ -40,6 +40,9 @@ enum State {
     HalfFrame,
     Streaming,
     BigReply,
+    /// keeps requests pending at all times: a writer thread sends SETs back to back without
+    /// waiting for replies while the replies are read concurrently
+    Flooding,
 }
 
 struct ClientResult {
@@ -128,6 +131,39 @@ fn client(port: u16, id: usize, state: State, seed: u64, stop_after: Duration) -
                 }
             }
         }
+        State::Flooding => {
+            // the writer runs until the connection breaks (or a generous cap); what it managed
+            // to send in full is collected afterwards
+            let mut w = tx.try_clone().unwrap();
+            let cap = stop_after + Duration::from_secs(25);
+            let writer = std::thread::spawn(move || {
+                let mut sent: Vec<(Vec<u8>, Option<Vec<u8>>)> = Vec::new();
+                let t0 = Instant::now();
+                let mut n = 0usize;
+                while t0.elapsed() < cap {
+                    let k = format!("c{}-k{}", id, n % 3).into_bytes();
+                    let v = format!("f{}-{}", id, n).into_bytes();
+                    if w.write_all(&command(&[b"SET", &k, &v])).is_err() {
+                        break;
+                    }
+                    sent.push((k, Some(v)));
+                    n += 1;
+                }
+                sent
+            });
+            // read concurrently until the stream ends
+            let end = rx.drain(Instant::now() + cap + Duration::from_secs(20));
+            res.end = match end {
+                ReadErr::Eof => "eof".into(),
+                ReadErr::Reset(e) => format!("reset: {}", e),
+                ReadErr::Timeout => "still-open-after-45s".into(),
+            };
+            let _ = rx.s.shutdown(std::net::Shutdown::Both);
+            res.sent = writer.join().unwrap_or_default();
+            res.expected = res.sent.iter().map(|_| b"+OK\r\n".to_vec()).collect();
+            res.received = std::mem::take(&mut rx.buf);
+            return res;
+        }
         State::BigReply => {
             let k = key(0);
             // half of these replies are larger than what the socket buffers of both sides can absorb
@@ -190,7 +226,7 @@ fn scenario(ctx: &Ctx, case: u64, out: &mut Out) {
     };
     let port = srv.port;
     let trigger_after = Duration::from_millis(*r.pick(&[5u64, 20, 50, 120, 250]) + r.range(0, 30));
-    let states: Vec<State> = (0..nclients).map(|i| if i == 0 { *r.pick(&[State::Streaming, State::HalfFrame]) } else { *r.pick(&[State::Idle, State::HalfFrame, State::Streaming, State::Streaming, State::BigReply]) }).collect();
+    let states: Vec<State> = (0..nclients).map(|i| if i == 0 { *r.pick(&[State::Streaming, State::HalfFrame]) } else { *r.pick(&[State::Idle, State::HalfFrame, State::Streaming, State::Streaming, State::BigReply, State::Flooding]) }).collect();
     let mut ts = Vec::new();
     for (i, st) in states.iter().enumerate() {
         let st = *st;
